@@ -6,7 +6,8 @@
 
 use crate::engine::guard;
 use crate::engine::json::hex_short;
-use crate::engine::run::{fp_debug, Ctx, Local};
+use super::gens;
+use crate::engine::run::{fp_debug, Ctx, Local, Tier};
 use crate::engine::space::*;
 use crate::refmodel::model::*;
 use crate::refmodel::repr::WErr;
@@ -250,7 +251,7 @@ fn sample_fci(k: u64) -> Fci {
 }
 
 pub fn c20(ctx: &mut Ctx) {
-    ctx.rule = "history trees without merging: every sequence of builder calls up to depth d over a small call alphabet (2-3 legal argument values per call) is replayed on a fresh real builder and on a trivial model; the bytes (and size, and error if any) must equal those of the canonical construction of the model's final state, for the bare builder, PacketBuilder::from, a one-member compound and a compound of the PacketBuilder; FIR compared up to entry order; states = histories, distinct_nontrivial = distinct final configurations (fingerprint of the model state)".into();
+    ctx.rule = "history trees without merging: every sequence of builder calls up to depth d over a small call alphabet (2-3 legal argument values per call) is replayed on a fresh real builder and on a trivial model; the bytes (and size, and error if any) must equal those of the canonical construction of the model's final state, for the bare builder, PacketBuilder::from, a one-member compound and a compound of the PacketBuilder; FIR compared up to entry order; plus flavour equivalence over whole configuration spaces: every configuration of the round-trip generators is realised in all 16 API flavours (owned/borrowed x 4 wrappers x with/without the intermediate builder being queried after every call) and each must give the bytes or the error of the plain flavour; states = histories and configurations, distinct_nontrivial = distinct final configurations (fingerprint of the model state)".into();
     let t = ctx.tier;
     let d_bye = t.pick(6u32, 7u32);
     ctx.bound("ByeBuilder", format!("{{padding x2, add_source x2, reason x3, reason_owned x2}} depth {}", d_bye));
@@ -259,6 +260,7 @@ pub fn c20(ctx: &mut Ctx) {
     ctx.bound("feedback builders", "{sender_ssrc x2, media_ssrc x2, padding x2} depth 4 x {builder, builder_owned} x 5 FCI types");
     ctx.bound("AppBuilder / UnknownBuilder / SenderReportBuilder / ReceiverReportBuilder / ReportBlockBuilder", format!("setters x2 values, adders x2, depth {}", t.pick(5, 6)));
     ctx.bound("NackBuilder / FirBuilder", format!("add sequences of length <= 5 over {{5,6,22,23}} and <= {} over {{0,1,17,0x7FFF,0x8000,0x8001,0xFFFE,0xFFFF}} / <= 4 over {{(a,1),(a,2),(b,1),(a,255),(a,0)}}", t.pick(4, 5)));
+    ctx.bound("flavour equivalence", t.pick("all configurations of the RPSI, BYE, APP, SDES, FIR, SLI, PLI and NACK (18-value windows) generators x 16 flavours", "the same with the thorough generators, plus the SR/RR generator"));
     ctx.assume("call histories deeper than the stated depths, and argument values outside the 2-3 per call, are not explored");
 
     // BYE
@@ -631,5 +633,84 @@ pub fn c20(ctx: &mut Ctx) {
             all_wraps(l, "FirBuilder", &hist, &model, &|| PayloadFeedback::builder(&f).sender_ssrc(3).media_ssrc(4));
         }
     });
+    // Flavour equivalence over whole configuration spaces: every configuration of the round-trip generators
+    // (C03-C05; thorough: C02 as well) is realised in all 16 API flavours - owned or borrowed variants of every
+    // API that has both, bare builder / PacketBuilder::from / one-member compound / compound of the PacketBuilder,
+    // and with or without the intermediate builder being queried after every call - and all of them must give the
+    // bytes (or the error) of the plain flavour.
+    let mut spaces = gens::rpsi_spaces(t, ctx.seed);
+    spaces.extend(gens::bye_spaces(t, ctx.seed));
+    spaces.extend(gens::app_spaces(t, ctx.seed));
+    spaces.extend(gens::sdes_spaces(t, ctx.seed));
+    spaces.extend(gens::fir_spaces(t, ctx.seed));
+    spaces.extend(gens::sli_spaces(t, ctx.seed));
+    spaces.extend(gens::pli_spaces(t, ctx.seed));
+    spaces.extend(gens::nack_spaces(Tier::Quick, ctx.seed));
+    if t == Tier::Thorough {
+        spaces.extend(gens::sr_rr_spaces(Tier::Quick, ctx.seed));
+    }
+    let flavours = Variant::full();
+    for sp in spaces {
+        let get = &sp.get;
+        ctx.run_space(&format!("flavours:{}", sp.name), sp.len, |idx, l| {
+            let model = get(idx);
+            l.evals += 1;
+            l.states += 1;
+            l.sample(|| format!("flavours of {}", model.short()));
+            let want = match guard::catch(|| canonical(&model)) {
+                Ok(w) => w.map(|b| canon_fir(&model, b)),
+                Err(pi) => {
+                    l.subject_panic("flavour:plain", &pi, || model.short());
+                    return;
+                }
+            };
+            if let Ok(b) = &want {
+                l.nontrivial(crate::engine::run::fp_bytes(b));
+            }
+            for var in flavours.iter().skip(1) {
+                l.transitions += 1;
+                let r = guard::catch(|| {
+                    let mut out = Err(WErr::Other("not built".into()));
+                    build::with_writer(&model, *var, &mut |w| out = bytes_of(w));
+                    out
+                });
+                match r {
+                    Err(pi) => l.subject_panic(&format!("flavour:{}", model.builder_name()), &pi, || format!("{} [{:?}]", model.short(), var)),
+                    Ok(got) => {
+                        l.validated += 1;
+                        let got = got.map(|b| canon_fir(&model, b));
+                        if got == want {
+                            l.hit("flavour agrees with the plain construction");
+                        } else {
+                            let what = match (&got, &want) {
+                                (Ok(a), Ok(b)) if a.len() != b.len() => "size",
+                                (Ok(_), Ok(_)) => "bytes",
+                                _ => "outcome",
+                            };
+                            let tag = if var.owned && !var.probe && var.wrap == Wrap::None {
+                                "owned"
+                            } else if var.probe {
+                                "probed"
+                            } else {
+                                "wrapped"
+                            };
+                            l.violation(
+                                format!("flavour-dependent-{}:{}:{}", what, model.builder_name(), tag),
+                                || format!("{} [{:?}]", model.short(), var),
+                                || {
+                                    format!(
+                                        "plain construction gives {} but this flavour gives {}",
+                                        want.as_ref().map(|b| hex_short(b)).unwrap_or_else(|e| format!("{:?}", e)),
+                                        got.as_ref().map(|b| hex_short(b)).unwrap_or_else(|e| format!("{:?}", e))
+                                    )
+                                },
+                            );
+                        }
+                    }
+                }
+            }
+        });
+    }
     ctx.require_hit("history agrees with canonical construction");
+    ctx.require_hit("flavour agrees with the plain construction");
 }
